@@ -18,6 +18,7 @@ Decided:
  W4 nothing else is dereferenced: every UniqueMmioPointer::new in the transport constructor is fed by a W1 result.
  W5 typed slice windows never extend past the capability length (C13.G5).  W6 config-space accessors admit an access
     only inside the device-config window (C13.G1 table).
+ W8 the capability list starts at the capabilities pointer with its reserved low bits cleared (= C12.B4 list start).
 Not decided: the HAL's mmio_phys_to_virt mapping itself.
 """
 from .common import *
